@@ -538,6 +538,34 @@ func runC03(c *fw.Ctx) {
 			c03CheckVia(c, fmt.Sprintf("in-package:%s+tiny%d", k, ti), "member-of-a-package", []byte(zoo[k]), inPackage([]string{t}))
 		}
 	}
+	// the file entry point with every parser mode a caller may pass (comments are always kept)
+	modes := []struct {
+		name string
+		m    parser.Mode
+	}{{"zero", 0}, {"AllErrors", parser.AllErrors}, {"SkipObjectResolution", parser.SkipObjectResolution}, {"DeclarationErrors", parser.DeclarationErrors},
+		{"ParseComments|AllErrors", parser.ParseComments | parser.AllErrors}, {"Trace-free-combination", parser.AllErrors | parser.SkipObjectResolution | parser.DeclarationErrors}}
+	mi := 0
+	for _, k := range zkeys {
+		for _, md := range modes {
+			i := mi
+			mi++
+			if !c.Mine(i) || (c.Quick() && i%3 != 0) {
+				continue
+			}
+			md := md
+			c03CheckVia(c, fmt.Sprintf("parse-mode:%s/%s", k, md.name), "ParseFile-with-mode", []byte(zoo[k]), func(in []byte) ([]byte, error) {
+				f, err := decorator.ParseFile(token.NewFileSet(), "in.go", in, md.m)
+				if err != nil {
+					return nil, err
+				}
+				var buf bytes.Buffer
+				if err := decorator.Fprint(&buf, f); err != nil {
+					return nil, err
+				}
+				return buf.Bytes(), nil
+			})
+		}
+	}
 	// the comment that opens a file: one or two comment lines in canonical and non-canonical form
 	// (no space after the slashes, extra spaces, empty, block), at column 1 or behind a byte-order
 	// mark / blanks, directly followed by the package clause or separated from it by an empty line.
